@@ -241,6 +241,7 @@ func run(raw json.RawMessage, prefix []string) (*vsched.Trace, []schedlib.V, str
 		}
 	}
 	var outcome []string
+	answered := map[int][]int{} // searcher index -> sorted ids it returned
 	batches := writerBatches(p.Writer)
 	var freeWG sync.WaitGroup
 	spawn := func(sc *vsched.Sched, name string, fn func()) {
@@ -313,6 +314,7 @@ func run(raw json.RawMessage, prefix []string) (*vsched.Trace, []schedlib.V, str
 				sort.Ints(ids)
 				hmu.Lock()
 				outcome = append(outcome, fmt.Sprintf("%s:%v@%d-%d", name, ids, from, to))
+				answered[i] = ids
 				hmu.Unlock()
 			})
 		}
@@ -384,6 +386,29 @@ func run(raw json.RawMessage, prefix []string) (*vsched.Trace, []schedlib.V, str
 		for _, v := range o.Viols {
 			fail("final-state:"+v.Sig, "%s", v.Detail)
 		}
+		if len(batches) == 0 && len(late) == 0 {
+			// no writer: the stored state never changed, so every concurrent search
+			// must have given the answer the same search gives alone (C03 / C04 / C05
+			// define that answer; an interleaving must not change it)
+			for i, kind := range p.Searchers {
+				got, ok := answered[i]
+				if !ok {
+					continue
+				}
+				res, err := s.SearchPoints(models.SearchRequest{Query: query(kind), Select: []string{"*"}, Limit: 10})
+				if err != nil {
+					continue
+				}
+				var alone []int
+				for _, r := range res {
+					alone = append(alone, sl.UUIDIndex(r.Id))
+				}
+				sort.Ints(alone)
+				if fmt.Sprint(alone) != fmt.Sprint(got) {
+					fail("concurrent-search-differs-from-the-same-search-alone", "S%d (%s) returned points %v while running concurrently with the other searches (no writer), and %v when repeated alone on the same state", i+1, kind, got, alone)
+				}
+			}
+		}
 		warm, werr := final.Observe(uni, []models.Query{query("vamana"), query("vamana-filter"), query("text"), query("string")}, false)
 		closed := make(chan struct{})
 		go func() { s.Close(); close(closed) }()
@@ -427,7 +452,7 @@ func siteClass(site string) string {
 }
 
 func master(cfg *harness.Config, rep *harness.Report) {
-	rep.Rule = "programs: searcher sets from {graph search, graph search with _id pre-filter, text, string filter} (2 searchers; thorough 3) x writer {none, insert 2, update a vector, delete 1, delete then insert with node-id reuse, insert 2 meeting a storage error after the index work} x cache state {cold, partially warm, warm}; all interleavings with at most `bound` preemptions at the scheduling points named in the header. Oracle: no storage use after a transaction ended, no failed search, every returned (id, document) is in a committed state that existed during the search, after the run point store + graph = sequential model in commit order and warm answers = cold answers"
+	rep.Rule = "programs: searcher sets from {graph search, graph search with _id pre-filter, text, string filter} (2 searchers; thorough 3) x writer {none, insert 2, update a vector, delete 1, delete then insert with node-id reuse, insert 2 meeting a storage error after the index work} x cache state {cold, partially warm, warm}; all interleavings with at most `bound` preemptions at the scheduling points named in the header. Oracle: no storage use after a transaction ended, no failed search, without a writer every concurrent search returns what the same search returns alone, every returned (id, document) is in a committed state that existed during the search, after the run point store + graph = sequential model in commit order and warm answers = cold answers"
 	rep.Assumptions = []string{"the writer's own storage operations are not scheduling points (bbolt hides uncommitted pages from readers; readers and the writer interact through the cache locks, the commit instant and the cache contents)", "one cached index in the schema so that the writer's cache operations come from one goroutine", "map-iteration order inside the code under test is not enumerated"}
 	p := pool.New(pool.Options{CPUsPerWorker: 2, JobTimeout: 300 * time.Second})
 	if cfg.Replay != "" {
